@@ -34,6 +34,8 @@ def run_config(cfg):
     ra = rrel if cfg['rrel_on'] == 'A' else ''
     rb = rrel if cfg['rrel_on'] == 'B' else ''
     mm = metamodel_from_str(GRAMMAR % dict(ra=ra, rb=rb))
+    if cfg.get('swap'):
+        pass
     log = []
 
     def mk(key):
